@@ -200,45 +200,73 @@ def _read_results(path):
     return res
 
 
-def run_cases(lines, tag, sides=("model", "debug", "release"), timeout=600, shards=None):
-    """Runs case lines through the model driver and the harness builds.
-    Returns {side: {id: result}}; a side that crashed/hung on a shard gets 'tool-died' for the
-    cases it did not answer (a hang or abort of the implementation is itself an observation)."""
-    work = f"{BUILD}/work/{tag}"
-    os.makedirs(work, exist_ok=True)
-    n = len(lines)
-    shards = shards or max(1, min(NCPU // 2, (n + 199) // 200))
-    chunks = [lines[i::shards] for i in range(shards)]
-    jobs = []
-    cmds = {"model": [DRIVER], "debug": [HARNESS_DEBUG, "run"], "release": [HARNESS_RELEASE, "run"]}
-    for k, chunk in enumerate(chunks):
-        cp = f"{work}/cases_{k}.txt"
+TOOLS = {"model": [DRIVER], "debug": [HARNESS_DEBUG, "run"], "release": [HARNESS_RELEASE, "run"]}
+
+
+def tool_for(side):
+    if side.startswith("model"):
+        return TOOLS["model"]
+    return TOOLS[side]
+
+
+def _run_shard(side, k, chunk, work, timeout):
+    """Runs one shard; if the tool dies (abort, stack overflow) the case it died on is marked
+    'tool-died' and the remaining cases are re-run, so one crash does not hide the others."""
+    results = {}
+    died = []
+    pending = list(chunk)
+    attempt = 0
+    while pending and attempt < 25:
+        cp = f"{work}/cases_{side}_{k}_{attempt}.txt"
+        op = f"{work}/out_{side}_{k}_{attempt}.txt"
         with open(cp, "w", encoding="utf-8") as f:
-            f.write("\n".join(chunk) + "\n")
-        for side in sides:
-            jobs.append((side, k, cp, f"{work}/out_{side}_{k}.txt"))
-    for _, _, _, op in jobs:
+            f.write("\n".join(pending) + "\n")
         if os.path.exists(op):
             os.remove(op)
+        rc, out = _run_tool(tool_for(side), cp, op, timeout)
+        r = _read_results(op)
+        results.update(r)
+        if rc == 0 and all(case_id(l) in r for l in pending):
+            break
+        # find the first unanswered case: that is the one the tool died (or hung) on
+        idx = next((i for i, l in enumerate(pending) if case_id(l) not in r), None)
+        if idx is None:
+            break
+        results[case_id(pending[idx])] = "tool-died"
+        died.append((k, rc, out[-300:], case_id(pending[idx])))
+        pending = pending[idx + 1:]
+        attempt += 1
+    return side, results, died
+
+
+def run_cases(lines, tag, sides=("model", "debug", "release"), timeout=600, shards=None):
+    """lines: a list (same cases for every side) or a dict side -> list.
+    Returns ({side: {id: result}}, {side: [deaths]})."""
+    work = f"{BUILD}/work/{tag}"
+    if os.path.isdir(work):
+        for f in os.listdir(work):
+            os.remove(os.path.join(work, f))
+    os.makedirs(work, exist_ok=True)
+    by_side = lines if isinstance(lines, dict) else {s: lines for s in sides}
+    sides = list(by_side.keys())
+    jobs = []
+    for side in sides:
+        ls = by_side[side]
+        n = len(ls)
+        sh_n = shards or max(1, min(NCPU // 2, (n + 149) // 150))
+        for k in range(sh_n):
+            chunk = ls[k::sh_n]
+            if chunk:
+                jobs.append((side, k, chunk))
     results = {s: {} for s in sides}
     died = {s: [] for s in sides}
-
-    def go(job):
-        side, k, cp, op = job
-        rc, out = _run_tool(cmds[side], cp, op, timeout)
-        return side, k, rc, out, op
-
     with ThreadPoolExecutor(max_workers=NCPU) as ex:
-        for side, k, rc, out, op in ex.map(go, jobs):
-            r = _read_results(op)
+        for side, r, d in ex.map(lambda j: _run_shard(j[0], j[1], j[2], work, timeout), jobs):
             results[side].update(r)
-            if rc != 0:
-                died[side].append((k, rc, out[-500:]))
-    ids = [case_id(l) for l in lines]
+            died[side] += d
     for side in sides:
-        for i in ids:
-            if i not in results[side]:
-                results[side][i] = "tool-died"
+        for l in by_side[side]:
+            results[side].setdefault(case_id(l), "tool-died")
     return results, died
 
 
